@@ -493,6 +493,14 @@ def specialise(t, cond, _memo=None):
     return r
 
 
+class InstanceToken:
+    def __init__(self, qual, oid):
+        self.qual, self.oid = qual, oid
+
+    def __repr__(self):
+        return "<%s#%d>" % (self.qual, self.oid)
+
+
 def with_heap(I, env):
     """Environment in which summaries evaluate concretely: references to summarised lists / dictionaries give their
     contents, loop summaries are *run* (index, loop-carried values stepped iteration by iteration, stop conditions),
@@ -512,6 +520,8 @@ def with_heap(I, env):
                 if bool(evaluate(g, e)):
                     d[evaluate(k, e)] = evaluate(v, e)
             return d
+        if isinstance(o, Instance):
+            return InstanceToken(o.cls.qual, ref.oid)       # an object: only its identity can matter to a stub
         raise CannotEval(repr(ref))
 
     def sym_hook(t, e):
@@ -537,6 +547,18 @@ def with_heap(I, env):
                 else:
                     items.append(("v", a, TRUE))
             return eval_items(items, e)
+        if t.op in ("exists", "loopret") and len(t.args) == 2 and is_const(t.args[0]) and t.args[0].v in I.loops:
+            # "some iteration returns" / the value returned by the first iteration that does
+            L = I.loops[t.args[0].v]
+            if t.op == "exists":
+                return run_loop(L, e, [], probe=t.args[1]) is not None
+            rc = getattr(L, "ret_cond", None)
+            if rc is None:
+                raise CannotEval(repr(t)[:120])
+            e2 = run_loop(L, e, [], probe=rc)
+            if e2 is None:
+                raise CannotEval("loopret of a loop that does not return: " + repr(t)[:80])
+            return evaluate(t.args[1], e2)
         raise CannotEval(repr(t)[:120])
     out["__ref__"] = ref_hook
     out["__sym__"] = sym_hook
@@ -555,9 +577,10 @@ def loop_root(L, env):
     return root
 
 
-def run_loop(L, env, group, cap=4096):
+def run_loop(L, env, group, cap=4096, probe=None):
     """Run one loop summary concretely.  Returns (values produced by the `group` rep items, in order; final values of
-    the loop-carried locations keyed by location)."""
+    the loop-carried locations keyed by location).  With `probe` (a condition over one iteration) the run ends at the first
+    iteration in which it holds and that iteration's environment is returned instead (None if there is none)."""
     out = []
     lvs = getattr(L, "lv", {})
     state = {}
@@ -581,6 +604,8 @@ def run_loop(L, env, group, cap=4096):
                 break
         elif not bool(evaluate(L.cond, e2)):
             break
+        if probe is not None and bool(evaluate(probe, e2)):
+            return e2
         j = 0
         while j < len(group):
             g = group[j]
@@ -604,6 +629,8 @@ def run_loop(L, env, group, cap=4096):
         if stop:
             break
         i += 1
+    if probe is not None:
+        return None
     return out, state
 
 
